@@ -1,38 +1,12 @@
-"""Registry of checks: which harness executions decide which property (DESIGN.md section 3)."""
+"""Registry of checks: which harness executions decide which property (DESIGN.md section 3).
+Each property has one file driver/checks/<ID>.py defining CHECK = dict(...)."""
+import os, glob, importlib.util
+from reghelp import HOOK_COMMITS, PENDING_REASON
 
-HOOK_COMMITS = ['5f6fbfb', '545457e']
-PENDING_REASON = {}
-
-ALL3 = [None, 'two', 'one', None]     # CPU shapes cycled over executions
-
-
-def runs3(harness, quick, thorough, timeout=(240, 900), shapes=ALL3, cfg=None):
-    """the same harness in the asan, tsan and plain flavors"""
-    out = []
-    for fl, q, t in (('asan', quick[0], thorough[0]), ('tsan', quick[1], thorough[1]), ('plain', quick[2], thorough[2])):
-        out.append(dict(harness=harness, flavor=fl, execs=dict(quick=q, thorough=t),
-                        timeout=dict(quick=timeout[0], thorough=timeout[1]), shapes=shapes, cfg=cfg or {}))
-    return out
-
-
-CHECKS = {
-    'C01': dict(
-        runs=runs3('h_mutex', (16, 8, 16), (96, 48, 160)),
-        par=6,
-        level='exploration',
-        rule='one evaluation = one seeded execution (fresh process) of the mutex/spinlock stress with stall points, '
-             'interrupters and a CPU shape; non-trivial = it saw at least one hand-off to a queued waiter and at least one '
-             'timed-out or interrupted lock() (or, in the spinlock section, >=2 OS threads contending); distinct = distinct '
-             'signature (configuration, lock kinds, log2-bucketed rare-path counters)',
-        floors=dict(quick=dict(evaluations=20, events=50000, distinct=8, cov={'C_MUTEX_HANDOFF': 100, 'lock_timeout': 50, 'lock_interrupted': 20}),
-                    thorough=dict(evaluations=150, events=1000000, distinct=40, cov={'C_MUTEX_HANDOFF': 1000, 'lock_timeout': 500, 'lock_interrupted': 200})),
-        assumptions=['x86-TSO hardware; weaker orderings only through TSan', 'stall points widen windows only where hooks exist'],
-        technique='runtime monitoring: occupancy/ownership/errno monitors at the API boundary + stuck detector, under ASan+UBSan, TSan (fiber-annotated) and plain builds with OS-level stall points and CPU shapes',
-        level_text='Held on the seeded executions actually run: every lock/try_lock/timed lock result of every thread is checked against an '
-                   'occupancy monitor (conservative intervals), the mutex owner field, the deadline and the interrupt ledger, a plain payload is '
-                   'checked for lost updates, and TSan/ASan watch the same runs. Reach comes from 1-6 vCPUs, interrupters from photon and OS threads, '
-                   'stall points inside the hand-off/interrupt/resume windows and 1/2/16-core CPU shapes. Not a proof over all schedules.',
-        level_note='Trusts the harness monitors (relaxed atomics, updated after acquire / before release), gcc sanitizer runtimes, and that OS-level stalls only widen real windows. '
-                   'Only x86-TSO interleavings are observable; stall points exist only where hooks were placed.',
-    ),
-}
+CHECKS = {}
+for _p in sorted(glob.glob(os.path.join(os.path.dirname(os.path.abspath(__file__)), 'checks', 'C*.py'))):
+    _id = os.path.basename(_p)[:-3]
+    _spec = importlib.util.spec_from_file_location('check_' + _id, _p)
+    _m = importlib.util.module_from_spec(_spec)
+    _spec.loader.exec_module(_m)
+    CHECKS[_id] = _m.CHECK
